@@ -34,7 +34,8 @@ MIN = {'quick': {'distinct': 2000,
                            'transitions.inorder': 1500,
                            'transitions.gap': 1500,
                            'cli.transitions': 20},
-                 'strata': {'second call on a changed copy': 1000,
+                 'strata': {'cli with a token-editing transformation': 8,
+                            'second call on a changed copy': 1000,
                             'gap: unary root': 100, 'gap: gapdeg>=2': 100,
                             'one-token sentence': 30,
                             'topdown: unary root': 100}},
@@ -429,23 +430,47 @@ def run_cli(ctx, rng, i):
     pos = rng.random() < 0.4
     sfmt = rng.choice(['export', 'export', 'tigerxml', 'discobrackets']
                       + (['brackets'] if system != 'gap' else []))
-    cli_case(ctx, bank, system, pos, sfmt)
+    edit = rng.random() < 0.35
+    if edit:
+        for s_ in bank:
+            for t_ in gen.tokens_of(s_['root']):
+                if rng.random() < 0.25:
+                    t_['w'] = rng.choice([',', '.', '"', '-', '?'])
+    cli_case(ctx, bank, system, pos, sfmt, edit)
 
 
-def cli_case(ctx, bank, system, pos, sfmt='export'):
+def cli_case(ctx, bank, system, pos, sfmt='export', edit=False):
     text = {'export': lambda: codec.export_encode(bank),
             'tigerxml': lambda: codec.tigerxml_encode(bank),
             'discobrackets': lambda: codec.discobrackets_encode(bank),
             'brackets': lambda: codec.brackets_encode(bank)}[sfmt]()
     src = common.write(ctx.path('.' + sfmt), text)
     dest = ctx.path('.trans')
-    args = ['transitions', src, dest, system, '--transform',
-            'negra_mark_heads', 'binarize', '--src-format', sfmt,
-            '--src-opts', 'quiet']
+    args = ['transitions', src, dest, system, '--transform'] + \
+        (['punctuation_delete'] if edit else []) + \
+        ['negra_mark_heads', 'binarize', '--src-format', sfmt,
+         '--src-opts', 'quiet']
+    if edit:
+        # a token-editing step first: the sentence written next to the
+        # transitions is the one of the *edited* tree
+        from .oracle_c11 import ref_delete
+        edited = []
+        for s_ in bank:
+            m_ = model.from_spec(s_['root'])
+            toks_ = m_.toks()
+            rem = set(t.num for t in toks_ if t.word in gen.PUNCT)
+            if len(rem) != len(toks_):
+                ref_delete(m_, rem)
+            edited.append({'sid': s_['sid'], 'root': model.to_spec(m_)})
+        bank_expected = edited
+        ctx.stratum('cli with a token-editing transformation')
+    else:
+        bank_expected = bank
     if pos:
         args += ['--dest-opts', 'pos']
     case = {'kind': 'cli', 'bank': bank, 'system': system, 'pos': pos,
-            'sfmt': sfmt}
+            'sfmt': sfmt, 'edit': edit}
+    bank = bank_expected
     rc, out, err = common.cli(args)
     ctx.hook('cli.transitions')
     if rc != 0:
@@ -653,6 +678,6 @@ def replay(ctx, case):
             run_system(ctx, case['system'], case['spec'], rng, case)
     elif case['kind'] == 'cli':
         cli_case(ctx, case['bank'], case['system'], case['pos'],
-                 case.get('sfmt', 'export'))
+                 case.get('sfmt', 'export'), case.get('edit', False))
     else:
         writer_case(ctx, case, rng)
